@@ -77,6 +77,10 @@ def single_token(text):
 
 def sym_int(x=0, *args):
     """Shadow for builtin int() in mido's text-parsing modules."""
+    if isinstance(x, SymInt) and not args:
+        return x                       # int() of an integer is that integer
+    if type(x).__name__ == 'SymReal' and not args:
+        return x.__trunc__()
     if has_token(x):
         s = x.strip()
         t = single_token(s)
